@@ -8,5 +8,7 @@ import (
 )
 
 func init() {
-	extra = append(extra, func() []api.Check { return []api.Check{wm.C01(), wm.C07()} })
+	extra = append(extra, func() []api.Check {
+		return []api.Check{wm.C01(), wm.C03(), wm.C04(), wm.C05(), wm.C07(), wm.C09(), wm.C10()}
+	})
 }
